@@ -319,6 +319,37 @@ theorem set_two_lists_ok {tol : ℚ} (h0 : 0 < tol) (h1 : tol ≤ 1) {xs ys : Li
     rw [take_zip] at p
     exact ⟨w, t, p, by omega⟩
 
+theorem nodes_between {o : Interp} (h : WF o) {i : ℕ} (hi : i < o.x.length) :
+    xfirst o ≤ nodes o.x i ∧ nodes o.x i ≤ xlast o := by
+  have h2 := h.two
+  have g : ∀ j (hj : j < o.x.length), nodes o.x j = o.x[j] := fun j hj => List.getD_eq_getElem _ 0 hj
+  unfold xfirst xlast
+  rw [g 0 (by omega), g i hi, g (o.x.length - 1) (by omega)]
+  constructor
+  · rcases Nat.eq_zero_or_pos i with rfl | hpos
+    · exact le_refl _
+    · exact le_of_lt (List.pairwise_iff_getElem.mp h.sorted 0 i (by omega) hi hpos)
+  · rcases Nat.lt_or_ge i (o.x.length - 1) with hlt | hge
+    · exact le_of_lt (List.pairwise_iff_getElem.mp h.sorted i (o.x.length - 1) hi (by omega) hlt)
+    · have : i = o.x.length - 1 := by omega
+      subst this; exact le_refl _
+
+/-- The range test shared by `__call__` and `derivative`. -/
+theorem derivative_outside {o : Interp} (h : WF o) {t : ℚ} (ht : t < xfirst o ∨ xlast o < t) :
+    GenQ.Interpolation.derivative o t = .error .valueError := by
+  unfold GenQ.Interpolation.derivative
+  cases hx : o.x with
+  | nil => have := h.two; rw [hx] at this; simp at this
+  | cons x0 xr =>
+    simp only
+    have e1 : xfirst o = x0 := by unfold xfirst nodes; rw [hx]; rfl
+    have e2 : xlast o = (x0 :: xr).getLastD 0 := by
+      rw [getLastD_eq_nodes]; unfold xlast; rw [hx]; rfl
+    have : (plt t x0 || plt ((x0 :: xr).getLastD 0) t) = true := by
+      rw [e1, e2] at ht
+      simpa only [plt, Bool.or_eq_true, decide_eq_true_eq] using ht
+    rw [if_pos this]
+
 /-- The positional arguments `x0, y0, x1, y1, …` of the n-argument form. -/
 def flat (pts : List (ℚ × ℚ)) : List PyArg := pts.flatMap (fun p => [.num p.1, .num p.2])
 
